@@ -25,6 +25,8 @@ pub struct C03;
 enum Kind { Num, Pct, Money, Dur, Date, Time, Unit }
 
 const KINDS: &[Kind] = &[Kind::Num, Kind::Num, Kind::Pct, Kind::Money, Kind::Dur, Kind::Date, Kind::Time, Kind::Unit];
+/// kinds whose literals and uses are spelled the same in every language
+const KINDS_TR: &[Kind] = &[Kind::Num, Kind::Num, Kind::Num, Kind::Pct];
 
 fn literal(r: &mut Rng, g: &SemGen, k: Kind) -> Expr {
     Expr::Lit(match k {
@@ -89,8 +91,9 @@ fn two_var_expr(r: &mut Rng, k: Kind, a: Expr, c: Expr, for_assign: bool) -> Exp
     }
 }
 
-fn failing(r: &mut Rng) -> String {
-    match r.below(5) {
+fn failing(r: &mut Rng, tr: bool) -> String {
+    // the type errors are spelled with English duration words; elsewhere only the syntax errors
+    match if tr { *r.pick(&[0u64, 1, 3]) } else { r.below(5) } {
         0 => format!("{} +", r.below(100)),
         1 => format!("({} + {}", r.below(100), r.below(100)),
         2 => format!("{} hour + {}", 1 + r.below(5), 1 + r.below(100)),
@@ -99,15 +102,23 @@ fn failing(r: &mut Rng) -> String {
     }
 }
 
-struct Prog { pool: Vec<NameUse>, kinds: Vec<Option<Kind>> }
+struct Prog { pool: Vec<NameUse>, kinds: Vec<Option<Kind>>, tr: bool }
 
 fn gen_stmt(r: &mut Rng, g: &SemGen, p: &mut Prog, faults: bool) -> Stmt {
     let bound: Vec<usize> = (0..p.pool.len()).filter(|i| p.kinds[*i].is_some()).collect();
     let what = if bound.is_empty() { 0 } else { r.below(12) };
+    let unbound: Vec<usize> = (0..p.pool.len()).filter(|i| p.kinds[*i].is_none()).collect();
+    if !unbound.is_empty() && r.chance(1, 12) {
+        // a name used BEFORE it is bound (not judged: the statement defines names after their binding); the
+        // very same line comes again later, after the binding, and then has a defined value
+        let i = *r.pick(&unbound);
+        let v = Expr::Var(g.name_use(r, &p.pool[i].clone()));
+        return Stmt::Eval(Expr::Bin { l: Box::new(v), op: *r.pick(&['*', '+']), r: Box::new(Expr::Lit(Lit::Num(g.small_num(r)))), tight: false });
+    }
     match what {
         0 | 1 | 2 => { // bind / re-bind to a literal (possibly of another kind)
             let i = r.usize(p.pool.len());
-            let k = *r.pick(KINDS);
+            let k = if p.tr { *r.pick(KINDS_TR) } else { *r.pick(KINDS) };
             p.kinds[i] = Some(k);
             Stmt::Assign { name: g.name_use(r, &p.pool[i].clone()), e: literal(r, g, k) }
         }
@@ -137,10 +148,10 @@ fn gen_stmt(r: &mut Rng, g: &SemGen, p: &mut Prog, faults: bool) -> Stmt {
             p.kinds[dst] = Some(k);
             Stmt::Assign { name: g.name_use(r, &p.pool[dst].clone()), e }
         }
-        6 if faults => Stmt::Fail { text: failing(r) },
+        6 if faults => Stmt::Fail { text: failing(r, p.tr) },
         7 if faults => { // failing assignment to an existing or new name: must leave the environment unchanged
             let i = r.usize(p.pool.len());
-            Stmt::FailAssign { name: g.name_use(r, &p.pool[i].clone()), rhs: failing(r) }
+            Stmt::FailAssign { name: g.name_use(r, &p.pool[i].clone()), rhs: failing(r, p.tr) }
         }
         _ => { // use
             let src = *r.pick(&bound);
@@ -189,7 +200,8 @@ impl Check for C03 {
         let mut cls: Vec<Cl> = (0..k).map(|i| {
             let pool = if r.chance(1, 2) { shared_pool.clone() } else { let n = 3 + r.usize(3); g.name_pool(&mut r, n) };
             let n = pool.len();
-            Cl { session: i > 0 || r.chance(2, 3), live: false, prog: Prog { pool, kinds: vec![None; n] }, steps: (3 + r.below(8)) * dm, history: vec![] }
+            let tr = r.chance(1, 5);
+            Cl { session: i > 0 || r.chance(2, 3), live: false, prog: Prog { pool, kinds: vec![None; n], tr }, steps: (3 + r.below(8)) * dm, history: vec![] }
         }).collect();
         let max_chunk = *r.pick(&[1usize, 3, 6]);
         let mut events = Vec::new();
@@ -204,7 +216,7 @@ impl Check for C03 {
                 c.live = true;
                 c.history.clear();
                 for k in c.prog.kinds.iter_mut() { *k = None; }
-                events.push(Event { actor: who as u8, op: Op::SessionNew { lang: "en".into() }, clock: clock.clone() });
+                events.push(Event { actor: who as u8, op: Op::SessionNew { lang: if c.prog.tr { "tr".into() } else { "en".into() } }, clock: clock.clone() });
             }
             if !c.session { for k in c.prog.kinds.iter_mut() { *k = None; } }
             let n = if c.session { 1 + r.usize(max_chunk) } else { 3 + r.usize(8) };
@@ -220,7 +232,7 @@ impl Check for C03 {
             if r.chance(1, 10) { lines.insert(r.usize(lines.len() + 1), Line::Raw(String::new())); }
             let crlf = (0..lines.len()).map(|_| r.chance(1, 6)).collect();
             let text = TextSpec { lines, crlf, trailing_nl: r.chance(1, 10) };
-            let op = if c.session { Op::SessionText { text } } else { Op::Execute { lang: "en".into(), text } };
+            let op = if c.session { Op::SessionText { text } } else { Op::Execute { lang: if c.prog.tr { "tr".into() } else { "en".into() }, text } };
             events.push(Event { actor: who as u8, op, clock });
         }
         crate::gen::session_variants(&mut r, &mut events, 4, 10, 8);
